@@ -96,8 +96,8 @@ Proof. exact (stream_write_keyed_crash hash HL f fl key o cs now). Qed.
    value or the new data *)
 Theorem C04_crash_after_history (h : list cop) fl key o cs now :
   forallb (c_ok hash) h = true -> c_ok hash (CStream fl key o cs now) = true ->
-  NoColl hash (c_all (c_step (fold_left c_step h cspec0) (CStream fl key o cs now))) ->
-  let f := fold_left (c_run hash) h [] in let s := fold_left c_step h cspec0 in
+  NoColl hash (c_all (c_step hash (fold_left (c_step hash) h cspec0) (CStream fl key o cs now))) ->
+  let f := fold_left (c_run hash) h [] in let s := fold_left (c_step hash) h cspec0 in
   let data := List.concat cs in let a := algo_of o in
   PrefixFree hash (encode_smeta (smeta_of key (commit_opts o (sri_of hash a data) (lenN data)) now)) ->
   Forall (fun c =>
